@@ -1,0 +1,7 @@
+//go:build !verif
+
+package parse
+
+// verifToken reports a scanned token to the verification harness (see verifhook_on.go).
+// Without the "verif" build tag it is an empty function that the compiler inlines away.
+func verifToken(string, rune, string, int) {}
